@@ -58,9 +58,43 @@ def run_contracts(rep, cmod_name, tier, seed, select=None, workers=16, accept_pr
         for j in jobs:
             merge(rep, _work(j))
         return
-    with ProcessPoolExecutor(max_workers=min(workers, max(1, len(jobs)))) as ex:
-        for d in ex.map(_work, jobs):
-            merge(rep, d)
+    _run_jobs(rep, _work, jobs, workers)
+
+
+def _limit_memory():
+    """a runaway symbolic execution must end as a MemoryError in its own worker, not take the machine down"""
+    try:
+        import resource
+        lim = int(os.environ.get("VERIF_WORKER_MEM_GB", "10")) << 30
+        resource.setrlimit(resource.RLIMIT_AS, (lim, lim))
+    except Exception:
+        pass
+
+
+def _run_jobs(rep, fn, jobs, workers):
+    """run the jobs in a pool; a worker that dies (killed, out of memory) costs only its own job: the jobs that were lost with
+    the pool are run again one process each, and a job that kills its process again is recorded as undecided"""
+    from concurrent.futures.process import BrokenProcessPool
+    lost = []
+    with ProcessPoolExecutor(max_workers=min(workers, max(1, len(jobs))), initializer=_limit_memory) as ex:
+        futs = [(j, ex.submit(fn, j)) for j in jobs]
+        for j, f in futs:
+            try:
+                merge(rep, f.result())
+            except BrokenProcessPool:
+                lost.append(j)
+    for k in range(0, len(lost), workers):
+        batch = lost[k:k + workers]
+        pools = [ProcessPoolExecutor(max_workers=1, initializer=_limit_memory) for _ in batch]
+        futs = [p.submit(fn, j) for p, j in zip(pools, batch)]
+        for p, j, f in zip(pools, batch, futs):
+            try:
+                merge(rep, f.result())
+            except BrokenProcessPool:
+                rep.downgraded.append({"function": f"{j[1]}[{j[2]}]", "reason": ["the worker process died (resource exhaustion) - nothing decided for this contract"],
+                                       "downgraded": "proof->undecided (worker died)"})
+            finally:
+                p.shutdown(wait=False)
 
 
 def _lemma_work(job):
@@ -133,9 +167,7 @@ def run_lemmas(rep, cmod_name, tier, seed, workers=16):
         for j in jobs:
             merge(rep, _lemma_work(j))
         return
-    with ProcessPoolExecutor(max_workers=min(workers, len(jobs))) as ex:
-        for d in ex.map(_lemma_work, jobs):
-            merge(rep, d)
+    _run_jobs(rep, _lemma_work, jobs, workers)
 
 
 def replay_known_findings(rep):
